@@ -44,7 +44,8 @@ impl Ctx {
     pub fn want(&self, section: &str) -> bool {
         match &self.only {
             None => true,
-            Some(p) => section.starts_with(p.as_str()),
+            // a gate passes if it is inside the requested prefix or the requested name is inside the gate
+            Some(p) => section.starts_with(p.as_str()) || p.starts_with(section),
         }
     }
 }
